@@ -284,7 +284,15 @@ pub fn run_program(ctx: &Ctx, p: &Program, text: &str, st: &mut Stats) -> Result
             st.count("expectations checked", ne as u64);
             st.count("identifier/keyword tokens matched to leaves", nl as u64);
         }
-        Err((msg, d)) => return Err(Fail::new(format!("classification: {}", msg), detail(d))),
+        Err((msg, d)) => {
+            // at the production memo capacity K3 can also yield a different tree for an accepted source
+            if ctx.findings.is_known("C02", "K3") && sv::k3_touches(Grammar::Sv, &[(&pptext, false)]) {
+                st.known("K3");
+                st.class("parsed differently at the production memo capacity than with the unbounded table (listed finding K3)");
+                return Ok(false);
+            }
+            return Err(Fail::new(format!("classification: {}", msg), detail(d)));
+        }
     }
     match check_keyword_variants(&tree, &pptext) {
         Ok(n) => st.count("keyword-only nodes matched to their variant", n as u64),
